@@ -273,7 +273,10 @@ class Check(common.Check):
         'reach_inv', 'trace_ok', 'wake_exactly_once', 'awake_once_and_not_if_cancelled', 'awake_only_pending',
         'order_by_time_fifo', 'never_early', 'no_lost_wakeup', 'sched_ahead_of_sleeping_head_notifies',
         'on_time', 'resched_relative_to_sched_time', 'clear_cancels_all', 'stop_cancels_all',
-        'exited_is_final', 'cancelled_never_awakened', 'exception_isolated', 'tempo_change_reevaluates')]
+        'exited_is_final', 'cancelled_never_awakened', 'exception_isolated', 'tempo_change_reevaluates',
+        'areach_inv', 'app_trace_ok', 'app_wake_exactly_once', 'app_never_early', 'app_no_lost_wakeup',
+        'app_sched_in_window_not_lost', 'app_resched_relative_to_now', 'app_clear_cancels_queue',
+        'app_exception_isolated')]
     N_QUICK = 300
     N_THOROUGH = 6000
     ASSUMPTIONS = ['threading.Condition / RLock semantics (wait releases atomically, notify wakes waiters) are assumed',
